@@ -251,6 +251,7 @@ class Summaries:
         if any(root == param_root for root, _ in self.uses(fid)):
             return False
         probes = []
+        delegated = []
         for bi, t in body.calls():
             f = t.get("f") or ""
             args = t.get("args", [])
@@ -268,7 +269,13 @@ class Summaries:
                 for k, a in enumerate(args):
                     r = pa.rpath(op_place(a))
                     if r and r[0] == param_root and self.is_restorer(callee, "p%d" % (k + 1)):
-                        probes.append(bi)
+                        delegated.append(bi)
+        if delegated:
+            # a function that hands the value to a restorer restores it only if it does so on every path
+            # (`ord > n || restore(x)` restores some elements, not all)
+            from .model import Ev, must_pass
+            if not must_pass(body, [Ev(bi, "term") for bi in delegated], exits="all"):
+                return True
         return bool(probes)
 
 
@@ -391,8 +398,10 @@ def result_tests(prog, body, probe_blocks):
     return out
 
 
-def analyse(prog, summ, fid):
-    """returns (probes, violations): probes = list of (block, path); violations = list of dicts"""
+def analyse(prog, summ, fid, entry_state=None, want_exit=False):
+    """returns (probes, violations): probes = list of (block, path); violations = list of dicts.
+    `entry_state` (path -> state) replaces VALID at the entry; with `want_exit` a third value is returned:
+    the join of the states at the return blocks."""
     body = prog.bodies[fid]
     pa = summ.pa(fid)
     probes = {}
@@ -402,7 +411,7 @@ def analyse(prog, summ, fid):
             if r and r[1]:
                 probes[bi] = (r[0], field_of(r[1]))
     if not probes:
-        return [], []
+        return ([], [], {}) if want_exit else ([], [])
     tests = result_tests(prog, body, list(probes))
     paths = sorted(set(probes.values()))
     # events per block (in order: all happen at the terminator; statements carry none)
@@ -495,7 +504,7 @@ def analyse(prog, summ, fid):
     # forward dataflow: state[block-entry][path]
     nb = body.normal_blocks()
     entry = {b: None for b in nb}
-    entry[0] = {p: VALID for p in paths}
+    entry[0] = {p: (entry_state or {}).get(p, VALID) for p in paths}
     work = [0]
     viol = {}
     while work:
@@ -546,6 +555,14 @@ def analyse(prog, summ, fid):
     for (b, q), (p, s) in sorted(viol.items()):
         t = body.term(b)
         violations.append({"block": b, "path": q, "used_as": p, "state": SNAME[s], "callee": t.get("res") or t.get("f") or "?"})
+    if want_exit:
+        ex = {}
+        for rb in body.return_blocks():
+            if entry.get(rb) is None:
+                continue
+            for q in paths:
+                ex[q] = max(ex.get(q, VALID), entry[rb][q])
+        return [(b, probes[b]) for b in sorted(probes)], violations, ex
     return [(b, probes[b]) for b in sorted(probes)], violations
 
 
